@@ -22,6 +22,7 @@ pub struct Rec {
     pub light: bool,
     /// element handlers record the unit without touching the attribute list
     pub blind: bool,
+    pub probe: bool,
     pub evs: Vec<Ev>,
     pub out: Vec<u8>,
     pub invocations: usize,
@@ -339,9 +340,59 @@ fn run_el_ops<H: HandlerTypes>(
                 let r = el.has_attribute(n);
                 op_result(rec, reg, i, format!("has:{r}"));
             }
+            ElOp::ClearEndTag => {
+                if let Some(h) = el.end_tag_handlers() {
+                    h.clear();
+                }
+            }
         }
     }
     Ok(())
+}
+
+/// `Scenario.probe`: user data round trip (what an earlier handler stored is still there) and
+/// the removed flag, after the handler's script. `Element` implements `UserData` for the
+/// non-Send handler types only.
+trait ProbeUnit {
+    fn probe_ud(&mut self, v: usize) -> Option<(usize, usize)>;
+    fn probe_removed(&self) -> bool;
+}
+macro_rules! impl_probe_unit {
+    ($t:ty) => {
+        impl ProbeUnit for $t {
+            fn probe_ud(&mut self, v: usize) -> Option<(usize, usize)> {
+                use lol_html::html_content::UserData;
+                let prev = self.user_data().downcast_ref::<usize>().copied().unwrap_or(0);
+                self.set_user_data(v);
+                Some((prev, self.user_data().downcast_ref::<usize>().copied().unwrap_or(0)))
+            }
+            fn probe_removed(&self) -> bool {
+                self.removed()
+            }
+        }
+    };
+}
+impl_probe_unit!(Element<'_, '_, lol_html::LocalHandlerTypes>);
+impl_probe_unit!(TextChunk<'_>);
+impl_probe_unit!(Comment<'_>);
+impl_probe_unit!(Doctype<'_>);
+impl ProbeUnit for Element<'_, '_, lol_html::send::SendHandlerTypes> {
+    fn probe_ud(&mut self, _v: usize) -> Option<(usize, usize)> {
+        None
+    }
+    fn probe_removed(&self) -> bool {
+        self.removed()
+    }
+}
+
+fn probe_unit(rec: &Shared, reg: usize, u: &mut dyn ProbeUnit) {
+    if lock(rec).probe {
+        let res = match u.probe_ud(reg + 1) {
+            Some((prev, now)) => format!("probe:prev={prev},now={now},removed={}", u.probe_removed()),
+            None => format!("probe:n/a,removed={}", u.probe_removed()),
+        };
+        op_result(rec, reg, 9999, res);
+    }
 }
 
 fn run_tx_ops(t: &mut TextChunk<'_>, ops: &[TxOp]) {
@@ -448,6 +499,7 @@ macro_rules! build_settings {
                             return injected();
                         }
                         run_el_ops(el, &rec2, reg, &ops)?;
+                        probe_unit(&rec2, reg, el);
                         if inj == Inject::After {
                             return injected();
                         }
@@ -476,6 +528,7 @@ macro_rules! build_settings {
                         if when == TextWhen::Always || t.last_in_text_node() {
                             run_tx_ops(t, &ops);
                         }
+                        probe_unit(&rec2, reg, t);
                         if inj == Inject::After {
                             return injected();
                         }
@@ -519,6 +572,7 @@ macro_rules! build_settings {
                             return injected();
                         }
                         run_cm_ops(c, &rec2, reg, &ops);
+                        probe_unit(&rec2, reg, c);
                         if inj == Inject::After {
                             return injected();
                         }
@@ -564,6 +618,7 @@ macro_rules! build_settings {
                         if remove {
                             d.remove();
                         }
+                        probe_unit(&rec2, reg, d);
                         if inj == Inject::After {
                             return injected();
                         }
@@ -766,6 +821,7 @@ pub fn run_opts(sc: &Scenario, opts: &RunOpts) -> Result<History, String> {
     let rec: Shared = Arc::new(Mutex::new(Rec {
         light: opts.light,
         blind: sc.blind,
+        probe: sc.probe,
         evs: Vec::with_capacity(64),
         out: Vec::with_capacity(sc.doc.len() + 64),
         invocations: 0,
@@ -885,6 +941,7 @@ pub fn run_rewrite_str(sc: &Scenario) -> Result<Result<Result<String, ErrKind>, 
     let rec: Shared = Arc::new(Mutex::new(Rec {
         light: false,
         blind: sc.blind,
+        probe: sc.probe,
         evs: vec![],
         out: vec![],
         invocations: 0,
@@ -925,6 +982,7 @@ fn new_rec(sc: &Scenario) -> Shared {
     Arc::new(Mutex::new(Rec {
         light: false,
         blind: sc.blind,
+        probe: sc.probe,
         evs: Vec::with_capacity(64),
         out: Vec::with_capacity(sc.doc.len() + 64),
         invocations: 0,
